@@ -13,7 +13,7 @@ def main(tier: str, seed: int) -> int:
             "with costs. non-trivial = cleanup changed the program and the source outcome varies over instances")
     bounds = {"defs": len(fam.DEFS), "uses": len(fam.USES), "menu": len(fam.MENU), "literals_per_scope": kmax,
               "universe": fam.U0, "universe_with_b_input": fam.UB}
-    return generic.family_main(PROP, tier, seed, fam.jobs(tier), rule, bounds)
+    return generic.family_main(PROP, tier, seed, generic.with_variants(fam.jobs(tier), tier), rule, dict(bounds, variants=True))
 
 
 def replay(path: str) -> int:
